@@ -28,10 +28,10 @@ func vfMapErr(err error) error {
 }
 
 func (s *vfS3) UploadSegment(ctx context.Context, key string, body []byte) error {
-	return s.o.Put("put-segment", key, body)
+	return s.o.PutIf("put-segment", key, body, ctx.Err)
 }
 func (s *vfS3) UploadIndex(ctx context.Context, key string, body []byte) error {
-	return s.o.Put("put-index", key, body)
+	return s.o.PutIf("put-index", key, body, ctx.Err)
 }
 func (s *vfS3) DeleteSegment(ctx context.Context, key string) error {
 	return s.o.Delete("delete-segment", key)
@@ -171,6 +171,12 @@ type vfProduceResult struct {
 // vfProduce sends one produce request through handler.Handle and decodes the response
 // with the standard client codec (kmsg). acks=0 yields no response (nil, nil).
 func vfProduce(h *handler, version int16, acks int16, clientID string, parts []vfProducePart) ([]vfProduceResult, error) {
+	return vfProduceCtx(context.Background(), h, version, acks, clientID, parts)
+}
+
+// vfProduceCtx is vfProduce with the connection context supplied by the caller (a
+// cancelled context models a client that disconnected while the request was in flight).
+func vfProduceCtx(ctx context.Context, h *handler, version int16, acks int16, clientID string, parts []vfProducePart) ([]vfProduceResult, error) {
 	req := kmsg.NewPtrProduceRequest()
 	req.Version = version
 	req.Acks = acks
@@ -195,7 +201,7 @@ func vfProduce(h *handler, version int16, acks int16, clientID string, parts []v
 	}
 	cid := clientID
 	hdr := &protocol.RequestHeader{APIKey: protocol.APIKeyProduce, APIVersion: version, CorrelationID: 7, ClientID: &cid}
-	raw, err := h.Handle(context.Background(), hdr, req)
+	raw, err := h.Handle(ctx, hdr, req)
 	if err != nil {
 		return nil, err
 	}
